@@ -270,7 +270,14 @@ func (ex *Exec) heapRead(p *Path, key string, ft types.Type, ref string) Value {
 
 func (ex *Exec) heapWrite(p *Path, key string, ft types.Type, ref string, val string) {
 	fs := ex.c.SortOf(ft)
-	p.heap[key] = "(store " + ex.heapArr(p, key, fs) + " " + ref + " " + val + ")"
+	t := "(store " + ex.heapArr(p, key, fs) + " " + ref + " " + val + ")"
+	if len(t) > 600 && ex.quantFacts == nil && !boundVarRe.MatchString(t) {
+		// name the new heap: later reads would otherwise copy the whole store chain at every use
+		c := ex.c.Fresh("H:"+key, "(Array Ref "+fs+")")
+		p.Assume(eq(c, t))
+		t = c
+	}
+	p.heap[key] = t
 }
 
 // havocMutableHeap forgets everything about mutable heap cells.
